@@ -35,17 +35,24 @@ def diffstate(a, b):
     return out
 
 
-def run_engine(tier):
-    """returns (viols [(id, name)], observations list, npairs, info)"""
+def run_engine(tier, cli_every=0):
+    """returns (viols [(id, name)], observations list, npairs, info); with cli_every > 0 every cli_every-th pair is also run through the
+    real CLI (`schema inspect` of the desired database -> HCL -> `schema apply --auto-approve` -> `schema diff`): info["cli"] = (viols, observations)"""
     b = vf.build_harness("cli", "engine")
+    env = dict(os.environ)
+    if cli_every:
+        env.update(VERIF_ATLAS=vf.build_atlas(), VERIF_CLI_EVERY=str(cli_every))
     d = vf.scratch("eng")
     try:
         pairs, n = export_pairs(tier, d)
         out = os.path.join(d, "o.ndjson")
-        p = subprocess.run([b, pairs, out, "16"], stdout=subprocess.PIPE, stderr=subprocess.PIPE, text=True, env=dict(os.environ, VERIF_SCRATCH=d), timeout=3600)
+        p = subprocess.run([b, pairs, out, "16"], stdout=subprocess.PIPE, stderr=subprocess.PIPE, text=True, env=dict(env, VERIF_SCRATCH=d), timeout=3600)
         if p.returncode != 0:
             raise vf.Infra("engine harness failed: " + p.stderr[-2000:])
         info = json.loads(p.stdout)
+        if cli_every and os.path.exists(out + ".cli"):
+            cv, _, _ = vf.monitor_trace("EngineTrace", "EngineTrace.cfg", out + ".cli", max_events=300)
+            info["cli"] = (cv, [json.loads(x) for x in open(out + ".cli.full").read().split("\n") if x])
         if info["skipped"] > n // 10:
             raise vf.Infra("the harness could not create %d of %d start states: %s" % (info["skipped"], n, info["skip_reasons"]))
         viols, events, _ = vf.monitor_trace("EngineTrace", "EngineTrace.cfg", out, max_events=300)
